@@ -317,6 +317,140 @@ func c13hist(c *Ctx, steps []*c13case) {
 	c.Emit("hist %d %s | %s@S:%s", len(fs), strings.Join(fs, "@"), strings.Join(obs, "@"), fin)
 }
 
+// ---------------------------------------------------------------- non-canonical compact (hex-prefix) flags
+
+// c13reflag re-encodes the top-level short node proof[i] with the NON-CANONICAL flag nibble f (4..15; its low bit is
+// forced to the parity of the key so that the key nibbles stay the same), then re-hashes the chain upwards by replacing
+// the child hash in every parent, so the proof stays hash-linked.  Returns the new proof and the hash of its first node,
+// or nil if proof[i] is not a top-level short node / the chain is not hash-linked there.
+func c13reflag(r *Rng, proof [][]byte, i int, f byte) ([][]byte, []byte) {
+	content, _, err := rlp.SplitList(proof[i])
+	if err != nil {
+		return nil, nil
+	}
+	if cnt, _ := rlp.CountValues(content); cnt != 2 {
+		return nil, nil
+	}
+	kbuf, rest, err := rlp.SplitString(content)
+	if err != nil || len(kbuf) == 0 {
+		return nil, nil
+	}
+	odd := (kbuf[0] >> 4) & 1
+	nk := append([]byte{}, kbuf...)
+	fl := (f &^ 1) | odd
+	if odd == 1 {
+		nk[0] = fl<<4 | kbuf[0]&15
+	} else {
+		nk[0] = fl << 4
+		if r.Intn(4) == 0 {
+			nk[0] |= byte(r.Intn(16)) // the padding nibble of an even key is ignored by compactToHex
+		}
+	}
+	out := cloneList(proof)
+	out[i] = rlpList(nk, rlp.RawValue(rest))
+	oldH, newH := keccak(proof[i]), keccak(out[i])
+	for j := i - 1; j >= 0; j-- {
+		if !bytes.Contains(out[j], oldH) {
+			return nil, nil
+		}
+		prev := keccak(out[j])
+		out[j] = bytes.Replace(out[j], oldH, newH, 1)
+		oldH, newH = prev, keccak(out[j])
+	}
+	return out, keccak(out[0])
+}
+
+// positions of top-level short nodes in a proof
+func c13shortPositions(proof [][]byte) []int {
+	var out []int
+	for i, n := range proof {
+		if strings.HasPrefix(c13dump(n), "S") {
+			out = append(out, i)
+		}
+	}
+	return out
+}
+
+// c13reflagCases: variants of a (valid) account-trie-node case with one short node of the main proof re-flagged.
+// all = every flag 4..15, otherwise one random flag.  Positions: every short node (last and inner).
+func c13reflagCases(r *Rng, k *c13case, all bool) []*c13case {
+	var out []*c13case
+	sel := &k.mainProof
+	if k.kind != "atn" {
+		sel = &k.acctProof
+	}
+	for _, i := range c13shortPositions(*sel) {
+		flags := []byte{byte(4 + r.Intn(12))}
+		if all {
+			flags = []byte{4, 5, 6, 7, 8, 9, 10, 11, 12, 13, 14, 15}
+		}
+		for _, f := range flags {
+			np, root := c13reflag(r, *sel, i, f)
+			if np == nil {
+				continue
+			}
+			c := k.clone()
+			pos := "inner"
+			if i == len(*sel)-1 {
+				pos = "last"
+			}
+			c.tag = fmt.Sprintf("reflag-%s-f%d", pos, f)
+			c.oracle = root
+			if k.kind == "atn" {
+				c.mainProof = np
+				c.keyHash = keccak(np[len(np)-1])
+			} else {
+				c.acctProof = np
+			}
+			out = append(out, c)
+		}
+	}
+	return out
+}
+
+// c13reflagged: (a) storage-style tries (short keys: many extensions) used as account tries: every node directly below an
+// extension and every leaf as the target, with the extension / the leaf re-flagged - the target below an extension leaves
+// exactly the extension's key as the remaining path at that extension; (b) synthetic chains that continue through a leaf
+// value, the leaf re-flagged (a short node holding a 32-byte string, at an inner position, key = remaining path);
+// (c) bytecode items whose account proof has a re-flagged node.
+func c13reflagged(c *Ctx, r *Rng, ntries int) {
+	for t := 0; t < ntries; t++ {
+		tr := c13storageTrie(r, 2+r.Intn(40))
+		bh := r.Bytes(32)
+		budget := 10
+		for _, p := range tr.paths {
+			pr := tr.proof(p)
+			if len(c13shortPositions(pr)) == 0 || len(p) > 64 {
+				continue
+			}
+			k := &c13case{tag: "honest", kind: "atn", oracle: tr.root, blockHash: bh, addrHash: make([]byte, 32), path: []byte(p),
+				keyHash: keccak(pr[len(pr)-1]), mainProof: pr}
+			all := budget > 0 && r.Intn(3) == 0
+			if all {
+				budget--
+			}
+			for _, v := range c13reflagCases(r, k, all) {
+				c13exec(c, v)
+				if r.Intn(6) == 0 {
+					c13exec(c, c13mutate(r, v, nil))
+				}
+			}
+		}
+	}
+	for i := 0; i < 12*ntries; i++ {
+		k := c13synthetic(r, 1+r.Intn(4), true)
+		for _, v := range c13reflagCases(r, k, i%4 == 0) {
+			c13exec(c, v)
+		}
+	}
+	for i := 0; i < 4*ntries; i++ {
+		k := c13synAccount(r)
+		for _, v := range c13reflagCases(r, k, i%4 == 0) {
+			c13exec(c, v)
+		}
+	}
+}
+
 type c13wrongCode struct {
 	tag  string
 	code []byte
@@ -1312,6 +1446,17 @@ func c13corpus(r *Rng) []*c13case {
 		ch[4] = r.Bytes(32)
 		out = append(out, mk("corpus-leaf-link-below-branch", []byte{3, 7, 7}, mkBranch(ch, em, nil), root, n, n2))
 	}
+	// non-canonical compact flags 4..15 on a short node holding a 32-byte string, key = the whole remaining path
+	for f := byte(4); f < 16; f++ {
+		kb := []byte{f << 4, 0xab}
+		path := []byte{0xa, 0xb}
+		if f&1 == 1 {
+			kb = []byte{f<<4 | 0xa, 0xbc}
+			path = []byte{0xa, 0xb, 0xc}
+		}
+		out = append(out, mk(fmt.Sprintf("corpus-reflag-inner-f%d", f), path, mkShortRaw(kb, h), leaf))
+		out = append(out, mk(fmt.Sprintf("corpus-reflag-last-f%d", f), []byte{}, mkShortRaw(kb, h)))
+	}
 	// single-node proofs
 	out = append(out, mk("corpus-single-leaf-empty-path", []byte{}, leaf))
 	out = append(out, mk("corpus-single-leaf-nonempty-path", []byte{1}, leaf))
@@ -1598,6 +1743,13 @@ func runC13(c *Ctx) {
 			c13exec(c, k2)
 		}
 	}
+
+	// 3a. valid hash chains whose short nodes carry non-canonical compact flags
+	nrf := 6 + 18*scale
+	if c.N > 0 {
+		nrf = 1
+	}
+	c13reflagged(c, r, nrf)
 
 	// 3b. histories on one validator instance and one storage
 	nhist := 60 + 240*scale
